@@ -63,8 +63,10 @@ def ensure_driver():
 def extract(profile='dev', repo=REPO, packages=None, tag=None, need=None, features=None):
     if tag is None:
         tag = os.environ.get('CBV_TAG', '')
+    base_tag = tag
     if packages:
-        # a per-package configuration (no workspace-wide feature unification): its own cache key and target directory
+        # a per-package configuration (no workspace-wide feature unification): its own cache key; the target directory is
+        # shared with the workspace build of the same profile so that dependencies are compiled once
         import hashlib as _h
         tag = '-p' + _h.sha1((' '.join(packages) + '|' + (features or '')).encode()).hexdigest()[:8] + tag
     """run the driver over the workspace; returns the directory holding the fact files.
@@ -82,7 +84,7 @@ def extract(profile='dev', repo=REPO, packages=None, tag=None, need=None, featur
             shutil.rmtree(out)
         os.makedirs(out)
         nonce = '%d-%d' % (os.getpid(), int(time.time() * 1000))
-        target = os.path.join(WORK, 'target-%s%s' % (profile, tag))
+        target = os.path.join(WORK, 'target-%s%s' % (profile, base_tag))
         # make cargo re-run the wrapper for workspace members
         for sub in ('debug', 'release'):
             fp = os.path.join(target, sub, '.fingerprint')
